@@ -787,7 +787,7 @@ func (c *updater) buildBackendOAuth(d *backData) {
 		}
 		uriPrefix = strings.TrimRight(uriPrefix, "/")
 		namespace := oauth.Source.Namespace
-		backend := c.findBackend(namespace, uriPrefix)
+		backend := c.findBackend(path.Link.Hostname(), namespace, uriPrefix)
 		if backend == nil {
 			c.logger.Error("path '%s' was not found on namespace '%s'", uriPrefix, namespace)
 			continue
@@ -825,15 +825,33 @@ func (c *updater) buildBackendOAuth(d *backData) {
 	}
 }
 
-func (c *updater) findBackend(namespace, uriPrefix string) *hatypes.HostBackend {
-	for _, host := range c.haproxy.Hosts().Items() {
+// findBackend looks for the backend of the uriPrefix path in the hosts of the
+// namespace. The hostname being configured has precedence: the oauth service is
+// expected to run as a backend of the same domain. Otherwise hosts are visited
+// in the order of their hostnames, default host last, so the same backend is
+// found on every sync, despite the iteration order of the hosts.
+func (c *updater) findBackend(hostname, namespace, uriPrefix string) *hatypes.HostBackend {
+	find := func(host *hatypes.Host) *hatypes.HostBackend {
+		if host == nil {
+			return nil
+		}
 		for _, path := range host.Paths {
 			if strings.TrimRight(path.Path(), "/") == uriPrefix && path.Backend.Namespace == namespace {
 				return &path.Backend
 			}
 		}
+		return nil
 	}
-	return nil
+	hosts := c.haproxy.Hosts()
+	if backend := find(hosts.FindHost(hostname)); backend != nil {
+		return backend
+	}
+	for _, host := range hosts.BuildSortedItems() {
+		if backend := find(host); backend != nil {
+			return backend
+		}
+	}
+	return find(hosts.DefaultHost())
 }
 
 var validDomainRegex = regexp.MustCompile(`^([A-Za-z0-9-]{1,63}\.)+[A-Za-z]{2,6}$`)
